@@ -94,8 +94,24 @@ def extract(model: Model, modname: str) -> Tuple[List[Rule], List[Edge]]:
                 nm = name_e.value if isinstance(name_e, ast.Constant) else (
                     "".join(string_fragments(name_e)) if isinstance(name_e, ast.JoinedStr) and not any(
                         isinstance(v, ast.FormattedValue) for v in name_e.values) else None)
-                rules.append(Rule(modname, nm, name_e, dollar_vars(exprs2), fi, c, "rule",
-                                  kwarg(c, "rspfile") is not None, exprs2, extra))
+                alts = [nm]
+                if nm is None:
+                    # `"a" if flag else "b"` (directly or through a temporary): the rule is defined under each of the names
+                    from .dataflow import resolved as _resolved
+
+                    def consts(e):
+                        if isinstance(e, ast.Constant) and isinstance(e.value, str):
+                            return [e.value]
+                        if isinstance(e, ast.IfExp):
+                            a_, b_ = consts(e.body), consts(e.orelse)
+                            return a_ + b_ if a_ and b_ else []
+                        return []
+                    got = consts(_resolved(cfg, cfg.node_for(c), name_e))
+                    if got:
+                        alts = got
+                for nm_ in alts:
+                    rules.append(Rule(modname, nm_, name_e, dollar_vars(exprs2), fi, c, "rule",
+                                      kwarg(c, "rspfile") is not None, exprs2, extra))
             elif callee_tail(c) == "module_rule" and isinstance(c.func, ast.Name):
                 mod_e = arg(c, 1, "mod_name")
                 pat = arg(c, 2, "arg_pattern")
